@@ -470,6 +470,13 @@ def gen_shape_case(rng, binary, counter):
     return {'binary': binary, 'x': x, 'T': T}
 
 
+def t_pattern(rng, vals):
+    """a temperature array over up to three distinct values a, b, c"""
+    a, b, c = vals
+    pats = [[a, b, a], [a, a, b], [b, a, a], [a, b, b, a], [a, b, c, a], [b, a, c, a, b], [a, b, a, b], [a, a, a], [c, b, a], [a, c, b, c, a]]
+    return list(pats[int(rng.integers(len(pats)))])
+
+
 def np_arg(a):
     if a[0] == 'sc':
         return float(a[1])
@@ -592,6 +599,13 @@ def part_wrappers(ctx):
         g = gen_shape_case(rng, True, counter)['T']
         if rng.random() < 0.3 and T[0] == 'vec' and len(T[1]) > 1:
             T = ('vec', [T[1][0]] * len(T[1]))           # equal temperatures: the batched path
+        elif rng.random() < 0.5:
+            # temperature arrays of every pattern: repeated values, non-monotone, first == last with other values inside
+            T = ('vec', t_pattern(rng, [counter[0], counter[0] + 1, counter[0] + 2]))
+            counter[0] += 3
+            n_ = len(T[1])
+            g = ('vec', list(range(counter[0], counter[0] + n_))) if rng.random() < 0.8 else g
+            counter[0] += n_
         del icalls[:]
         Ta, ga = np_arg(T), np_arg(g)
         Tb, gb = copy.deepcopy(Ta), copy.deepcopy(ga)
@@ -603,6 +617,14 @@ def part_wrappers(ctx):
                 got = [float(v) for v in np.atleast_1d(out[0])]
                 if got != [v + 0.5 for v in flat]:
                     pyfail.append(({'T': T, 'g': g, 'query': 'getInterfacialComposition'}, 'result is not the concatenation of the back-end results'))
+                # every (T_i, g_i) must be evaluated at its own temperature, in order
+                Tl = [T[1]] if T[0] == 'sc' else list(T[1]); gl = [g[1]] if g[0] == 'sc' else list(g[1])
+                nn = max(len(Tl), len(gl))
+                want_pairs = list(zip(Tl * (nn if len(Tl) == 1 else 1), gl * (nn if len(gl) == 1 else 1)))
+                have_pairs = [(t, gv) for t, gs in icalls for gv in gs]
+                if have_pairs != want_pairs:
+                    pyfail.append(({'T': T, 'g': g, 'query': 'getInterfacialComposition'},
+                                   'getInterfacialComposition evaluates entry: (T, gExtra) pairs %r were evaluated as %r' % (want_pairs, have_pairs)))
             else:
                 out = objs[False].getInterfacialComposition([0.1, 0.1], Ta, ga)
                 impl = 'Some [%s]' % '; '.join('(%s, %s)' % (zlit(t), zlit(g0)) for t, g0 in icalls)
@@ -857,18 +879,22 @@ def part_singlephase(ctx):
 # D. SAMPLING of the real pycalphad-backed objects (testing, not proof)
 RTOL = 1e-8          # fresh vs warmed results agree to ~1e-9 (solver tolerance); stale caches show at 1e-5 or more
 RTOL_DIFF = 1e-7     # diffusivities amplify the solver's convergence noise: up to 9e-9 observed over 2000 queries
-def rtol_of(q):
+RTOL_CURVDF = 1e-5   # 'curvature' driving force = (x - xM) d2G/dx2 (xP - xM): second derivatives, up to 9e-7 observed between cold and warm starts
+def rtol_of(q, method=None):
+    if q['q'] == 'DF' and method == 'curvature':
+        return RTOL_CURVDF
     return RTOL_DIFF if q['q'] in ('ID', 'TD') else RTOL
 SYSTEMS = {
     'ALZR': {'binary': True, 'prec': ['AL3ZR'], 'matrix': ['FCC_A1'], 'methods': ['tangent', 'approximate', 'sampling', 'curvature'],
-             'x': [(0.002, 0.02)], 'T': (500.0, 850.0), 'queries': ['DF', 'DF', 'IC', 'ID', 'TD']},
+             'x': [(0.002, 0.02)], 'T': (500.0, 850.0), 'queries': ['DF', 'DF', 'IC', 'ID', 'TD'], 'batch': ['IC', 'IC', 'DF', 'ID', 'TD']},
     'NICRAL': {'binary': False, 'prec': ['FCC_L12'], 'matrix': ['DIS_FCC_A1'], 'methods': ['tangent', 'approximate', 'sampling', 'curvature'],
-               'x': [(0.05, 0.1), (0.1, 0.12)], 'T': (950.0, 1150.0), 'queries': ['DF', 'DF', 'ID', 'TD', 'CURV', 'GROW', 'IMP', 'ICM']},
+               'x': [(0.05, 0.1), (0.1, 0.12)], 'T': (950.0, 1150.0), 'queries': ['DF', 'DF', 'ID', 'TD', 'CURV', 'GROW', 'IMP', 'ICM'],
+               'batch': ['ICM', 'DF', 'ID', 'TD', 'GROW'], 'far': [(0.005, 0.03), (0.005, 0.04)]},
     'ALMGSI': {'binary': False, 'prec': ['MGSI_B_P', 'MG5SI6_B_DP', 'B_PRIME_L', 'U1_PHASE', 'U2_PHASE'], 'matrix': ['FCC_A1'],
                'methods': ['tangent', 'sampling'], 'x': [(0.003, 0.01), (0.003, 0.01)], 'T': (420.0, 520.0),
-               'queries': ['DF', 'DF', 'DF', 'GROW', 'ID', 'TD']},
+               'queries': ['DF', 'DF', 'DF', 'GROW', 'ID', 'TD'], 'batch': ['DF', 'GROW', 'ID', 'TD'], 'far': [(1e-5, 2e-4), (1e-5, 2e-4)]},
     'FECRNI': {'binary': False, 'prec': [], 'matrix': ['FCC_A1', 'BCC_A2'], 'methods': ['tangent'],
-               'x': [(0.1, 0.3), (0.05, 0.2)], 'T': (1100.0, 1500.0), 'queries': ['ID', 'TD']},
+               'x': [(0.1, 0.3), (0.05, 0.2)], 'T': (1100.0, 1500.0), 'queries': ['ID', 'TD'], 'batch': ['ID', 'TD']},
 }
 
 
@@ -938,7 +964,12 @@ def do_query(th, q, rm=None):
         else:
             raise ValueError(k)
     changed = [(n, b.tolist(), a.tolist()) for n, (a, b) in args.items() if not np.array_equal(a, b)]
-    return norm_result(r), changed
+    res = norm_result(r)
+    if k == 'CURV' and len(res) == 6 and res[2] is not None:
+        # gba = inv(d2G_beta) d2G_alpha is dimensionless, O(1) for solution phases; for a stoichiometric precipitate the rank test
+        # in _curvatureFactorFromEq is a knife edge and gba comes out as exact zeros or as 1e-14 noise: both mean zero
+        res[2] = np.where(np.abs(res[2]) < 1e-8, 0.0, res[2])
+    return res, changed
 
 
 def gen_query(rng, system, pool):
@@ -971,6 +1002,59 @@ def gen_query(rng, system, pool):
     return q
 
 
+def gen_batch(rng, system):
+    """one batched call with a temperature array of some pattern (repeated values, non-monotone, first == last with other
+    values inside, ...); it is compared entry by entry with the single-point evaluations"""
+    S = SYSTEMS[system]
+    k = str(rng.choice(S['batch']))
+    Tv = sorted(float(rng.uniform(*S['T'])) for _ in range(3))
+    Ts = t_pattern(rng, [Tv[int(i)] for i in rng.permutation(3)])
+    n = len(Ts)
+    newx = lambda: [float(rng.uniform(lo, hi)) for lo, hi in S['x']]
+    q = {'q': 'batch', 'kind': k, 'T': Ts, 'rm': bool(rng.random() < 0.3)}
+    if k in ('DF', 'ID', 'TD'):
+        xs = [newx() for _ in range(n)] if rng.random() < 0.6 else [newx()] * n
+        q['x'] = [x[0] for x in xs] if S['binary'] else xs
+        q['ph'] = str(rng.choice(S['prec'])) if k == 'DF' else (str(rng.choice(S['matrix'])) if len(S['matrix']) > 1 else None)
+    elif k == 'IC':
+        q['g'] = [float(v) for v in rng.uniform(0, 15000, n)] if rng.random() < 0.8 else [float(rng.uniform(0, 15000))] * n
+        q['ph'] = str(rng.choice(S['prec']))
+    elif k == 'ICM':
+        q['x'] = newx()
+        q['g'] = [float(v) for v in rng.uniform(0, 3000, n)]
+        q['ph'] = str(rng.choice(S['prec']))
+    elif k == 'GROW':
+        q['x'] = newx()
+        q['T'] = Ts[0]
+        R = [float(v) for v in 10 ** rng.uniform(-9.5, -8, 3)]
+        g = [float(v) for v in rng.uniform(50, 2000, 3)]
+        idx = t_pattern(rng, [0, 1, 2])
+        q['R'] = [R[i] for i in idx]
+        q['g'] = [g[i] for i in idx]
+        q['dG'] = float(rng.uniform(200, 3000))
+        q['ph'] = str(rng.choice(S['prec']))
+    return q
+
+
+def batch_singles(q):
+    """the single-point queries a batched call stands for"""
+    k = q['kind']
+    out = []
+    n = len(q['R']) if k == 'GROW' else len(q['T'])
+    for j in range(n):
+        s1 = {'q': k, 'ph': q.get('ph'), 'rm': True}
+        if k in ('DF', 'ID', 'TD'):
+            s1.update(x=q['x'][j], T=q['T'][j])
+        elif k == 'IC':
+            s1.update(T=q['T'][j], g=q['g'][j])
+        elif k == 'ICM':
+            s1.update(x=q['x'], T=q['T'][j], g=q['g'][j])
+        else:
+            s1.update(x=q['x'], T=q['T'], R=q['R'][j], g=q['g'][j], dG=q['dG'])
+        out.append(s1)
+    return out
+
+
 def gen_purity_history(rng, system, quick):
     S = SYSTEMS[system]
     method = str(rng.choice(S['methods']))
@@ -982,9 +1066,43 @@ def gen_purity_history(rng, system, quick):
             ops.append({'q': 'clear'})
         elif r < 0.12 and len(S['methods']) > 1:
             ops.append({'q': 'method', 'm': str(rng.choice(S['methods']))})
+        elif r < 0.27:
+            ops.append(gen_batch(rng, system))
         else:
             ops.append(gen_query(rng, system, pool))
+    ops.append(gen_batch(rng, system))
     return {'part': 'purity', 'system': system, 'method': method, 'history': ops}
+
+
+def gen_curv_history(rng, system, quick):
+    """curvature / growth queries that mix removeCache=True and False, at points inside the two-phase region and FAR outside
+    it (no tie-line: an object without history answers None)"""
+    S = SYSTEMS[system]
+    ops, pool = [], []
+    ph = str(rng.choice(S['prec']))
+    for i in range(int(rng.integers(5, 10 if quick else 18))):
+        far = rng.random() < 0.35
+        k = str(rng.choice(['CURV', 'GROW']))
+        if far:
+            x = [float(rng.uniform(lo, hi)) for lo, hi in S['far']]
+            T = float(rng.uniform(*S['T']))
+        elif pool and rng.random() < 0.4:
+            x, T = pool[int(rng.integers(len(pool)))]
+        else:
+            x = [float(rng.uniform(lo, hi)) for lo, hi in S['x']]
+            T = float(rng.uniform(*S['T']))
+            pool.append((x, T))
+        q = {'q': k, 'x': x, 'T': T, 'ph': ph if rng.random() < 0.8 else str(rng.choice(S['prec'])),
+             'rm': bool(rng.random() < (0.85 if far else 0.4))}
+        if far:
+            q['far'] = True
+        if k == 'GROW':
+            m = int(rng.choice([1, 3]))
+            q['R'] = [float(v) for v in 10 ** rng.uniform(-9.5, -8, m)]
+            q['g'] = [float(v) for v in rng.uniform(50, 2000, m)]
+            q['dG'] = float(rng.uniform(200, 3000))
+        ops.append(q)
+    return {'part': 'purity', 'system': system, 'method': 'tangent', 'history': ops}
 
 
 class RefObject:
@@ -1025,6 +1143,42 @@ def run_purity(case, ref=None, budget_fresh=0):
             warm.setDrivingForceMethod(q['m'])
             method = q['m']
             continue
+        if q['q'] == 'batch':
+            nq += 1
+            k = q['kind']
+            blabel = k + (' ' + method if k == 'DF' else '')
+            singles = [ref.answer(s1, method) for s1 in batch_singles(q)]
+            def out_of_range(want):
+                if k in ('GROW',) and all(v is None for v in want):
+                    return True
+                if k == 'DF' and (want[0] is None or float(np.ravel(want[0])[0]) <= 0):
+                    return True
+                return k in ('IC', 'ICM') and want[0] is not None and bool(np.any(np.asarray(want[0]) < 0))
+            skip = [out_of_range(w_) for w_ in singles]       # entries outside the stable range are not compared
+            if all(skip):
+                ood += 1
+                continue
+            bq = dict(q, q=k)
+            try:
+                bres, changed = do_query(warm, bq)
+            except Exception as ex:
+                hits.append(('no_internal_error', blabel + ' batch', 'batched query %d %r raised %s: %s' % (i, bq, type(ex).__name__, ex), i))
+                break
+            for name, before, after in changed:
+                hits.append(('arguments_unchanged', '%s %s' % (k, name), 'batched query %d (%s) changed its argument %s from %r to %r' % (i, k, name, before, after), i))
+            n_ = len(singles)
+            for j, want in enumerate(singles):
+                if skip[j]:
+                    continue
+                part = [None if a is None else (np.array(a[j]) if (a.ndim >= 1 and a.shape[0] == n_) else a) for a in bres]
+                ok, w = same_result(part, [None if a is None else np.array(a) for a in want], rtol_of(bq, method))
+                if not ok:
+                    hits.append(('batch_is_pointwise', blabel,
+                                 'entry %d of the batched call %d %r is %s, the single-point evaluation %r gives %s (relative difference %.3g)'
+                                 % (j, i, {a: b for a, b in q.items() if a != 'q'}, short(part), batch_singles(q)[j], short(want), w), i))
+                    break
+                worst = max(worst, w)
+            continue
         label = q['q'] + (' ' + method if q['q'] == 'DF' else '')
         try:
             got, changed = do_query(warm, q)
@@ -1049,8 +1203,11 @@ def run_purity(case, ref=None, budget_fresh=0):
             outside = True
         if outside:
             ood += 1
-            break
-        ok, w = same_result(got, want, rtol_of(q))
+            if not (q.get('far') and q.get('rm') and q['q'] in ('CURV', 'GROW')):
+                break
+            # removeCache=True asks for an answer that owes nothing to cached equilibria: far outside the two-phase region it
+            # is None on an object without history and must be None here too (compared below; the history goes on)
+        ok, w = same_result(got, want, rtol_of(q, method))
         if ok:
             worst = max(worst, w)
         else:
@@ -1061,14 +1218,14 @@ def run_purity(case, ref=None, budget_fresh=0):
             budget_fresh -= 1
             fresh = therm(system, method, fresh=True)
             tf = do_query(fresh, q, rm=True)[0]
-            ok2, w2 = same_result(want, tf, rtol_of(q))
+            ok2, w2 = same_result(want, tf, rtol_of(q, method))
             if not ok2:
                 hits.append(('history_independent', 'clearCache ' + label,
                              'query %d %r: an object after clearCache() returns %s, a newly built object %s' % (i, q, short(want), short(tf)), i))
         # repeat the call: same answer
         try:
             again, _ = do_query(warm, q)
-            ok3, w3 = same_result(got, again, rtol_of(q))
+            ok3, w3 = same_result(got, again, rtol_of(q, method))
             if not ok3:
                 hits.append(('repeat_same', label, 'query %d %r returned %s and, repeated, %s' % (i, q, short(got), short(again)), i))
             else:
@@ -1096,7 +1253,7 @@ def run_purity(case, ref=None, budget_fresh=0):
             hits.append(('arguments_unchanged', '%s %s' % (k, name), 'batched %s changed its argument %s' % (k, name), len(case['history'])))
         for j, (q, got) in enumerate(lst):
             part = [None if a is None else a[j] for a in bres]
-            ok, w = same_result([None if a is None else np.array(a) for a in part], got, rtol_of(bq))
+            ok, w = same_result([None if a is None else np.array(a) for a in part], got, rtol_of(bq, method))
             if not ok:
                 hits.append(('batch_is_pointwise', k + (' ' + method if k == 'DF' else ''),
                              'point %d of the batched %s call %r returned %s, alone it returned %s' % (j, k, bq, short(part), short(got)), len(case['history'])))
@@ -1142,6 +1299,8 @@ def part_purity(ctx):
     cases = corpus_cases('purity')
     for system, k in plan.items():
         cases += [gen_purity_history(ctx.rng, system, quick) for _ in range(k)]
+    for system, k in ({'NICRAL': 5, 'ALMGSI': 4} if quick else {'NICRAL': 40, 'ALMGSI': 30}).items():
+        cases += [gen_curv_history(ctx.rng, system, quick) for _ in range(k)]
     refs = {}
     seen = set()
     worst = 0.0
@@ -1163,7 +1322,13 @@ def part_purity(ctx):
         ctx.count({'purity': c}, st['queries'] > 1)
         ctx.hist('purity_system', c['system'])
         for q in c['history']:
-            ctx.hist('purity_query', q['q'])
+            ctx.hist('purity_query', q['q'] if q['q'] != 'batch' else 'batch ' + q['kind'])
+            if q['q'] == 'batch' and isinstance(q['T'], list):
+                Tq = q['T']
+                ctx.hist('batch_T_pattern', 'all equal' if len(set(Tq)) == 1 else 'first == last, others inside' if Tq[0] == Tq[-1]
+                         else 'repeated values' if len(set(Tq)) < len(Tq) else 'distinct, non-monotone' if Tq != sorted(Tq) and Tq != sorted(Tq, reverse=True) else 'distinct, monotone')
+            if q.get('far'):
+                ctx.hist('curvature_far_outside', 'removeCache=%s' % q['rm'])
         ctx.cov['traces_validated_against_impl'] += 1
         for clause, cls, msg, idx in hits:
             if (clause, cls) in seen:
@@ -1197,6 +1362,24 @@ def gen_scripted_history(rng, quick):
     Ts = [int(v) for v in rng.choice(np.arange(600, 640), int(rng.integers(1, 4)), replace=False)]
     m0 = str(rng.choice(list(METHODS)))
     ops = []
+    if rng.random() < 0.4:
+        # curvature-factor histories: few phases, removeCache on and off, points with a tie-line (x % 4 in {0, 2}), without
+        # (x % 4 in {1, 3}), with a failing equilibrium (x % 7 == 3) and where the solver drops the precipitate (x % 5 == 1)
+        allx = np.arange(0, 140)
+        good = [int(v) for v in allx if v % 4 in (0, 2) and v % 7 not in (3, 5) and v % 5 != 1]
+        pool = [int(rng.choice(good)), int(rng.choice(good)),
+                int(rng.choice([v for v in allx if v % 7 == 3])), int(rng.choice([v for v in allx if v % 5 == 1 and v % 7 not in (3, 5)])),
+                int(rng.choice([v for v in allx if v % 4 == 1 and v % 7 not in (3, 5)]))]
+        phs_ = [1, 2] if rng.random() < 0.5 else [1]
+        for i in range(int(rng.integers(5, 14 if quick else 30))):
+            r = rng.random()
+            if r < 0.05:
+                ops.append({'q': 'clear'})
+            else:
+                k = 'CURV' if r < 0.85 else str(rng.choice(['DF', 'ID']))
+                x = pool[int(rng.integers(0, 2))] if rng.random() < 0.5 else int(rng.choice(pool))
+                ops.append({'q': k, 'x': x, 'T': int(rng.choice(Ts)), 'p': int(rng.choice(phs_)) if k != 'ID' else 0, 'rm': bool(rng.random() < 0.5)})
+        return {'part': 'scripted', 'method': m0, 'history': ops}
     for i in range(int(rng.integers(5, 14 if quick else 30))):
         r = rng.random()
         if r < 0.05:
@@ -1204,10 +1387,10 @@ def gen_scripted_history(rng, quick):
         elif r < 0.13:
             ops.append({'q': 'method', 'm': str(rng.choice(list(METHODS)))})
         else:
-            k = str(rng.choice(['DF', 'DF', 'DF', 'ID', 'TD']))
-            p = int(rng.integers(1, nph + 1)) if k == 'DF' else int(rng.integers(0, nph + 1))
+            k = str(rng.choice(['DF', 'DF', 'DF', 'ID', 'TD', 'CURV', 'CURV']))
+            p = int(rng.integers(1, nph + 1)) if k in ('DF', 'CURV') else int(rng.integers(0, nph + 1))
             if rng.random() < 0.5:
-                p = 1 if k == 'DF' else 0
+                p = 1 if k in ('DF', 'CURV') else 0
             ops.append({'q': k, 'x': int(rng.choice(xs)), 'T': int(rng.choice(Ts)), 'p': p, 'rm': bool(rng.random() < 0.3)})
     return {'part': 'scripted', 'method': m0, 'history': ops}
 
@@ -1222,16 +1405,16 @@ def totuple(t):
 def norm_state(t):
     """association lists of the state in a canonical order"""
     tag, kids = t[1], t[2]
-    return ('N', tag, tuple(('N', k[1], tuple(sorted(k[2])) if k[1] in (41, 43, 44) else k[2]) for k in kids))
+    return ('N', tag, tuple(('N', k[1], tuple(sorted(k[2])) if k[1] in (41, 43, 44, 45, 46) else k[2]) for k in kids))
 
 
 def run_scripted_impl(case):
     """the real GeneralThermodynamics on the scripted pycalphad; returns per query (answer, state)"""
     import c09_fake as F
-    from kawin.thermo import GeneralThermodynamics
+    from kawin.thermo import MulticomponentThermodynamics
     import kawin.tests.datasets as D
     with quiet():
-        th = GeneralThermodynamics(D.ALMGSI_DB, ['AL', 'MG', 'SI'], ['FCC_A1', 'MGSI_B_P', 'MG5SI6_B_DP', 'B_PRIME_L', 'U1_PHASE', 'U2_PHASE'],
+        th = MulticomponentThermodynamics(D.ALMGSI_DB, ['AL', 'MG', 'SI'], ['FCC_A1', 'MGSI_B_P', 'MG5SI6_B_DP', 'B_PRIME_L', 'U1_PHASE', 'U2_PHASE'],
                                    drivingForceMethod=case['method'])
     out = []
     with F.scripted(th) as w, quiet():
@@ -1245,6 +1428,8 @@ def run_scripted_impl(case):
                     x, T, ph = [float(q['x']), 0.5], float(q['T']), th.phases[q['p']]
                     if q['q'] == 'DF':
                         a = F.answer_tree('DF', th.getDrivingForce(x, T, precPhase=ph, removeCache=q['rm']))
+                    elif q['q'] == 'CURV':
+                        a = F.answer_tree('CURV', th.curvatureFactor(x, T, precPhase=ph, removeCache=q['rm']))
                     elif q['q'] == 'ID':
                         a = F.answer_tree('ID', th.getInterdiffusivity(x, T, removeCache=q['rm'], phase=ph))
                     else:
@@ -1271,7 +1456,7 @@ def run_scripted_impl(case):
                         dis.append('query %d %r: implementation answered %r, model %r' % (i, q, ia, ma)); break
                     if norm_state(ist) != norm_state(ms):
                         a, b = norm_state(ist), norm_state(ms)
-                        which = [n for n, u, v in zip(('_compset_cache_df', '_matrix_cs', '_points_cache', '_diffusivity_cache'), a[2], b[2]) if u != v]
+                        which = [n for n, u, v in zip(('_compset_cache_df', '_matrix_cs', '_points_cache', '_diffusivity_cache', '_compset_cache_curvature', '_curvature_outputs'), a[2], b[2]) if u != v]
                         dis.append('after query %d %r the caches %s differ: implementation %r, model %r' % (i, q, which, [u for u, v in zip(a[2], b[2]) if u != v][0], [v for u, v in zip(a[2], b[2]) if u != v][0]))
                         break
                 if len(out) != len(model_rows) and not dis:
@@ -1290,7 +1475,7 @@ def scripted_term(case):
         elif q['q'] == 'method':
             qs.append('QMethod %s' % METHODS[q['m']])
         else:
-            c = {'DF': 'QDF', 'ID': 'QInter', 'TD': 'QTracer'}[q['q']]
+            c = {'DF': 'QDF', 'ID': 'QInter', 'TD': 'QTracer', 'CURV': 'QCurv'}[q['q']]
             qs.append('%s %s %s %s %s' % (c, zlit(q['x']), zlit(q['T']), natlit(q['p']), boollit(q['rm'])))
     return 's_trace (obj_init %s) [%s]' % (METHODS[case['method']], '; '.join(qs))
 
@@ -1306,7 +1491,7 @@ def part_scripted(ctx):
         model_rows = [(totuple(a), totuple(st)) for a, st in rows]
         d = judge(model_rows)
         ncalls += calls
-        nontriv = sum(1 for q in c['history'] if q['q'] in ('DF', 'ID', 'TD')) > 2
+        nontriv = sum(1 for q in c['history'] if q['q'] in ('DF', 'ID', 'TD', 'CURV')) > 2
         ctx.count({'scripted': c}, nontriv)
         ctx.hist('scripted_method', c['method'])
         ctx.cov['traces_validated_against_impl'] += 1
